@@ -15,6 +15,8 @@ def declare(c):
     c.rule('C02.R3', 'with exclusion disabled no region test succeeds', floor=1)
     c.rule('C02.R4', 'the induction relies on the tracked position being the file position: every move with an X/Y/Z word '
                      'advances the tracked axis and is tested against the regions before it is forwarded', floor=50)
+    c.rule('C19.R6', 'C19: the trailing (\'\', text) item of parameterItems never changes what a handler does', floor=100)
+    c.rule('C19.R4', 'C19: letter -> argument flow of the state-only handlers (G28 flags, G92 / M206 words)', floor=10)
     c.rule('C02.R5', '"inside a region" is asked about the destination itself: the region test receives the exact native '
                      'coordinates of the point (no rounding or adjustment that could move a point across a border)', floor=8)
 
@@ -25,6 +27,11 @@ def in_inv_pre(f):
 
 def path_rules(col, gcode, paths, I):
     declare(col)
+    from . import rules_c19
+    if gcode in ('G28', 'G92', 'M206'):
+        rules_c19.path_rules(col, gcode, paths, I, own=False)        # includes the string-argument rule
+    else:
+        rules_c19.strarg_rule(col, gcode, paths, I)
     for p in paths:
         f = Facts(p, I)
         if f.raised:
